@@ -11,6 +11,7 @@ into a raw byte stream.
 import logging
 import struct
 import typing
+import warnings
 
 from pamqp import (base, body, commands, common, constants, decode, exceptions,
                    header, heartbeat)
@@ -167,6 +168,12 @@ def _unmarshal_method_frame(frame_data: bytes) -> base.Frame:
     except KeyError:
         raise exceptions.UnmarshalingException(
             'Unknown', 'Unknown method index: {}'.format(str(method_index)))
+    except Warning:
+        # The deprecated method warns when it is created and warnings are
+        # raised as errors: it was received, not created by the application
+        with warnings.catch_warnings():
+            warnings.simplefilter('ignore')
+            method = commands.INDEX_MAPPING[method_index]()
     try:
         method.unmarshal(frame_data[bytes_used:])
     except _DECODE_ERRORS as error:
